@@ -60,6 +60,36 @@ theorem c03_permitted_table_agrees_loop :
       rows.all (fun r => permitted r.allowed ⟨0, r.req, r.caps, false⟩ == r.loopRan) = true := by
   refine ⟨_, rfl, by decide +kernel⟩
 
+/-- **Declarations computed on demand are vetted by what they yield, at every request.**  Tools whose
+    `required_capabilities` / `capabilities` are properties that build a fresh one-shot iterator (generator expression,
+    `map`, `iter(…)`) at each access, evaluated on the REAL four entry points for every (ceiling, required, capabilities)
+    over the tag universe of `permTable`, every engine asked TWICE (one row per request, 1458 rows, regenerated each
+    run): the body runs iff the model's `permitted` holds for the tool value `iteratorDecl` describes, and the result
+    reports success iff it ran - on the first request and on the second alike (a check that walks the declaration more
+    than once, or remembers an exhausted iterator, changes these rows). -/
+theorem c03_on_demand_declaration_table_agrees :
+    ∃ rows, onDemandTable = some rows ∧ rows.length = 1458 ∧
+      rows.all (fun r =>
+        let p := permitted r.allowed ⟨0, (iteratorDecl r.req r.caps).1, (iteratorDecl r.req r.caps).2, false⟩
+        p == r.callRan && r.callRan == r.callOk && p == r.metRan && r.metRan == r.metOk &&
+        p == r.autoRan && r.autoRan == r.autoOk && p == r.loopRan) = true := by
+  refine ⟨_, rfl, by decide +kernel, by decide +kernel⟩
+
+/-- what an on-demand declaration requires is what its `required_capabilities` iterator yields whenever that attribute
+    is present - also when it yields nothing (the iterator object is truthy: `capabilities` is not consulted) - and
+    what `capabilities` yields otherwise -/
+theorem c03_on_demand_declaration_required (req caps : Option (List Cap)) (b : Nat) (r : Bool) :
+    (Tool.mk b (iteratorDecl req caps).1 (iteratorDecl req caps).2 r).required =
+      match req with
+      | some cs => cs
+      | none => caps.getD [] := by
+  unfold iteratorDecl Tool.required
+  cases req with
+  | none => cases caps with
+    | none => rfl
+    | some cs => cases cs <;> rfl
+  | some cs => cases cs <;> rfl
+
 /-- **Registering a taken name replaces the object, through every registration entry point.**  The real constructor
     `tools=`, `engulf_tool` (SimpleTool / hand-written object) and `register_function` are evaluated on every pair of
     styles x same callable or another x declarations (96 rows, regenerated each run): the registry then holds the
